@@ -5,7 +5,7 @@ Open Scope N_scope.
 Inductive c15case :=
 | SItem (v : val) (sml : option text) (back : option val)       (* item -> to_sml -> Item.from_sml *)
 | SText (src : text) (mutation : N) (result : option val).      (* arbitrary text; mutation 0 none, 1 closing bracket removed,
-                                                                   2 unknown type name, 3 closing bracket replaced by '.' *)
+                                                                   2 unknown type name, 3 closing bracket replaced by ., 4 text behind a complete item *)
 
 Definition model_agree15 (c : c15case) : N :=
   match c with
